@@ -13,7 +13,7 @@ LEVEL = "model_checking"
 
 MSD = 8        # advertised per-stream limit (all stream kinds)
 MD = 16        # advertised connection limit
-NSTREAMS = 2   # advertised stream-count limits (bidi, uni)
+NSTREAMS = 4   # advertised stream-count limits (bidi, uni)
 FLOW, SLIMIT, SSTATE, FSIZE = 3, 4, 5, 6
 NAMES = {3: "FLOW_CONTROL_ERROR", 4: "STREAM_LIMIT_ERROR", 5: "STREAM_STATE_ERROR", 6: "FINAL_SIZE_ERROR"}
 BIG = (1 << 62) - 1
@@ -162,13 +162,15 @@ class Ref:
 def alphabet(role, level):
     """peer moves; level 'core' (small) or 'full'"""
     if role == "server":
-        pb0, pb1, pb_beyond = 0, 4, 8
-        pu0, pu_beyond = 2, 10
+        pb0, pb1, pb_beyond = 0, 8, 16          # stream indexes 0, 2 and 4 (limit 4)
+        pu0, pu_beyond = 2, 18
         eb, eu = 1, 3
+        pb_last = 12                             # index 3: the last one inside the initial limit
     else:
-        pb0, pb1, pb_beyond = 1, 5, 9
-        pu0, pu_beyond = 3, 11
+        pb0, pb1, pb_beyond = 1, 9, 17
+        pu0, pu_beyond = 3, 19
         eb, eu = 0, 2
+        pb_last = 13
     mv = []
     shapes_full = [(0, 1), (0, MSD), (0, MSD + 1), (MSD - 1, 1), (MSD, 1), (1, MSD - 1), (MSD, 0), (0, 0)]
     shapes_core = [(0, 1), (0, MSD), (MSD, 1), (MSD - 1, 1), (0, 0)]
@@ -200,12 +202,16 @@ def alphabet(role, level):
     mv.append(("ACKALL",))
     mv.append(("TIMER",))
     mv.append(("EOPEN", eb))
+    # the ACK that makes E declare its older packets (e.g. the one carrying MAX_STREAMS / MAX_DATA)
+    # lost arrives in the same packet as a STREAM frame that is within every limit E advertised
+    mv.append(("LOSS_STREAM", pb_last, 0, 1, False))
+    mv.append(("LOSS_STREAM", pb0, 0, 1, False))
     return mv
 
 
 def to_frames(mv):
     k = mv[0]
-    if k == "STREAM":
+    if k in ("STREAM", "LOSS_STREAM"):
         _, sid, off, ln, fin = mv
         return [{"t": "STREAM", "id": sid, "off": off, "data": data(sid, off, ln), "fin": fin,
                  "force_off": off > 0}]
@@ -266,8 +272,23 @@ def step(bot, ref, mv):
         ref.known.add(sid)
         ref.observe(r.frames())
         return None, False, "eopen"
-    expect = ref.judge(mv)
-    r = bot.send(to_frames(mv))
+    if k == "LOSS_STREAM":
+        # E sends a newer ack-eliciting packet (PING); one second later only that one is acknowledged,
+        # so every older outstanding packet of E is declared lost by the time threshold
+        bot.app("send_ping", lambda c: c.send_ping(77))
+        pns = sorted(x.pn for x in bot.outstanding if x.epoch == "A")
+        if len(pns) < 2:
+            return None, False, "noop"
+        bot.advance(1.0)
+        bot.outstanding = [x for x in bot.outstanding if not (x.epoch == "A" and x.pn == pns[-1])]
+        smv = ("STREAM",) + tuple(mv[1:])
+        expect = ref.judge(smv)
+        r = bot.send([{"t": "ACK", "ranges": [(pns[-1], pns[-1])], "delay": 0}] + to_frames(mv))
+        mv = smv
+        k = "STREAM"
+    else:
+        expect = ref.judge(mv)
+        r = bot.send(to_frames(mv))
     ref.observe(r.frames())
     closes = [f for f in r.frames("CONNECTION_CLOSE")]
     closed = bool(closes) or bot.E.conn._state.name != "CONNECTED"
